@@ -328,10 +328,11 @@ func TestDescriptorTuples(t *testing.T) {
 // ---- real key objects ----
 
 type keyCase struct {
-	Scheme string `json:"scheme"`
-	Hash   uint   `json:"hash"`
-	H      int    `json:"h"`
-	Seed   pu.HB  `json:"seed"`
+	Scheme     string `json:"scheme"`
+	Hash       uint   `json:"hash"`
+	H          int    `json:"h"`
+	Seed       pu.HB  `json:"seed"`
+	AddrFormat uint   `json:"addr_format,omitempty"`
 }
 
 func checkKey(c *keyCase) (string, string) {
@@ -346,6 +347,32 @@ func checkKey(c *keyCase) (string, string) {
 		}
 		k, m, _ := checkAddr(&addrCase{Kind: "dilithium-pk", PK: pk[:]})
 		return k, m
+	}
+	if c.AddrFormat != 0 {
+		// a key object whose descriptor names an unsupported address format can be constructed; deriving its address
+		// must be refused on EVERY call (first, second, after other getters), never answered with some other value
+		var x *xmss.XMSS
+		if o := ev.Try(func() {
+			x = xmss.NewXMSSFromSeed(pu.Arr48(c.Seed), uint8(c.H), xmss.HashFunction(c.Hash), common.AddrFormatType(c.AddrFormat))
+		}); o.Panicked {
+			if !o.IsString {
+				return "key/unsupported-format-constructor-fault", o.String()
+			}
+			return "", "" // refusing to build such a key is fine too
+		}
+		for call := 1; call <= 3; call++ {
+			var a [20]byte
+			o := ev.Try(func() { a = x.GetAddress() })
+			if !o.Panicked {
+				return "key/unsupported-format-address-derived", fmt.Sprintf("GetAddress call #%d on a key with address format %d returned %x instead of refusing", call, c.AddrFormat, a)
+			}
+			if !o.IsString {
+				return "key/unsupported-format-fault", o.String()
+			}
+			ev.Try(func() { _ = x.GetLegacyAddress() })
+			_ = x.GetPK()
+		}
+		return "", ""
 	}
 	x := pu.NewXMSS(c.Seed, c.H, xmss.HashFunction(c.Hash))
 	pk := x.GetPK()
@@ -375,6 +402,10 @@ func TestKeyObjects(t *testing.T) {
 		if c.Scheme == "xmss" {
 			c.Hash = uint(rapid.SampledFrom(pu.Hashes).Draw(rt, "hash"))
 			c.H = rapid.SampledFrom([]int{4, 4, 4, 6}).Draw(rt, "h")
+			if rapid.IntRange(0, 5).Draw(rt, "oddFormat") == 0 {
+				c.AddrFormat, c.H = uint(rapid.IntRange(1, 15).Draw(rt, "af")), 4
+				r.Count("keys_with_unsupported_address_format", 1)
+			}
 		}
 		key, msg := checkKey(c)
 		r.Eval(1)
